@@ -22,8 +22,8 @@ std::vector<ProgEntry>& Registry() {
   static std::vector<ProgEntry> r;
   return r;
 }
-Reg::Reg(int id, ProgFn fn) {
-  Registry().push_back({id, fn});
+Reg::Reg(int id, ProgFn fn, int flags) {
+  Registry().push_back({id, fn, flags});
 }
 }  // namespace pg
 
@@ -86,12 +86,13 @@ void ResetState() {
 void PrintRun(int id, const char* mode, long k, long live0, long bad0, long bal0) {
   using namespace pg;
   std::string s;
-  char b[256];
+  char b[512];
   std::snprintf(b, sizeof b,
                 "{\"id\":%d,\"mode\":\"%s\",\"k\":%ld,\"final\":[%d,%d],\"ready\":%d,\"finished\":%d,\"allocs\":%ld,"
-                "\"live\":%ld,\"bad\":%ld,\"balance\":%ld,\"submits\":%ld,\"rejected\":%ld,\"shared_bad\":%d,\"log\":[",
+                "\"live\":%ld,\"bad\":%ld,\"balance\":%ld,\"submits\":%ld,\"rejected\":%ld,\"shared_bad\":%d,\"sib\":[%d,%d,%d,%d,%d,%d,%d],\"log\":[",
                 id, mode, k, gout.final_state, gout.final_code, gout.ready, gout.finished, gout.allocs, gc.live - live0,
-                gc.bad - bad0, (gc.news - gc.deletes) - bal0, g.submit_seq, g.rejected, gout.shared_bad);
+                gc.bad - bad0, (gc.news - gc.deletes) - bal0, g.submit_seq, g.rejected, gout.shared_bad, gout.sib_calls,
+                gout.sib_tag, gout.sib_state, gout.sib_code, gout.sib_ready, gout.sib_fstate, gout.sib_fcode);
   s += b;
   for (int i = 0; i < g.nlog; ++i) {
     std::snprintf(b, sizeof b, "%s[%d,%d,%d,%d,%d]", i == 0 ? "" : ",", g.log[i].step, g.log[i].tag, g.log[i].started,
@@ -155,7 +156,13 @@ int main(int argc, char** argv) {
       const auto& p = reg[pi];
       RunVariant(p, "base", -1);
       long S = pg::g.submit_seq;
-      if (enumerate) {
+      if (enumerate && (p.flags & 1) != 0) {
+        // several consumers of one shared source: which of them submits first is unspecified, so only "every Submit
+        // refused" is a rejection pattern whose outcome does not depend on that order
+        if (S > 0) {
+          RunVariant(p, "from", 0);
+        }
+      } else if (enumerate) {
         for (long k = 0; k < S; ++k) {
           RunVariant(p, "from", k);
         }
